@@ -259,6 +259,10 @@ unsafe fn arena_alloc(layout: Layout) -> *mut u8 {
     }
     s.n_alloc += 1;
     s.live += 1;
+    // fresh arena pages are zero; real allocators hand out stale bytes: fill the
+    // block so that a read of storage the library never initialised is visible
+    // (0xFF..FF also happens to be the library's "moved out" count sentinel)
+    std::ptr::write_bytes(addr as *mut u8, if s.rng & 0x100 == 0 { 0xA5 } else { 0xFF }, layout.size());
     addr as *mut u8
 }
 
